@@ -247,10 +247,10 @@ def run(R):
         else:
             listexpr = 'sig_ptrs.signature_covered_part'
         good = False
-        if len(loops) == 1 and ast.unparse(loops[0].ast.iter) == listexpr and not any(isinstance(x, (ast.Break, ast.Continue, ast.If)) for x in ast.walk(loops[0].ast)):
+        if len(loops) == 1 and (ast.unparse(loops[0].ast.iter) == listexpr or full_text(cx, loops[0].ast.iter) == listexpr) and not any(isinstance(x, (ast.Break, ast.Continue, ast.If)) for x in ast.walk(loops[0].ast)):
             ups = [c for c in ast.walk(loops[0].ast) if isinstance(c, ast.Call) and callee_attr(c) == 'update' and ast.unparse(c.args[0]) == ast.unparse(loops[0].ast.target)]
             good = len(ups) == 1
-        elif not loops and len(joins) == 1 and ast.unparse(joins[0].args[0]) == listexpr:
+        elif not loops and len(joins) == 1 and (ast.unparse(joins[0].args[0]) == listexpr or full_text(cx, joins[0].args[0]) == listexpr):
             good = True
         if good:
             n_ok += 1
